@@ -69,6 +69,8 @@ def _cases(tier):
     cases += [("in_pipe_write_small", i) for i in range(2 if tier == "quick" else 8)]
     # the victim is killed right after the parent's n-th look at its state (exit code / liveness)
     cases += [("observe", n, cfg) for n in range(1, 7) for cfg in range(2 if tier == "quick" else 4)]
+    # an exception raised inside the k-th alignment of a worker (not at a queue operation)
+    cases += [("in_aligner", i) for i in range(6 if tier == "quick" else 120)]
     cases += [("holding_writer_lock", i) for i in range(len(LOCK_CFGS) if tier == "quick" else 4 * len(LOCK_CFGS))]
     return cfgs, cases
 
@@ -83,7 +85,7 @@ def required(tier):
     return ["executions", "fault_fired", "kind:SIGKILL", "kind:exit3", "kind:exception", "kind:SIGSEGV", "kind:SIGTERM", "kind:sys_exit_2",
             "point:before_put_0", "point:between_puts", "point:before_sentinel", "point:after_sentinel",
             "async_kills_delivered", "in_delivery_executions", "exit_nonzero", "double_fault_executions",
-            "observation_kill_executions"]
+            "observation_kill_executions", "in_aligner_exception_executions"]
 
 
 def EXHAUSTIVE(tier, m):
@@ -193,6 +195,30 @@ def run_case(ctx, rng, index, casedir):
             sit["point:" + ("between_puts" if point.startswith("before_put_") and point != "before_put_0" else point)] += 1
             judge(run, planned["fault"], wit, expected, out, viol, sit)
             sigs.append(stable_hash([cfgs[ci], wkr, point, kind, sched]))
+    elif case[0] == "in_aligner":
+        n, b, c = rng.choice([(4, 2, 2), (5, 2, 3), (3, 1, 2), (6, 3, 1), (7, 2, 2), (2, 5, 1)])
+        w = RR.make_workload(rng, casedir, n)
+        base_out = os.path.join(casedir, "base.gaf")
+        base = RR.run_driver(casedir, "base", ["realign", w.gaf, w.gfa, w.fasta, "-o", base_out, "-c", "1"], {"cores": 1}, None, timeout=120)
+        if base["rc"] != 0:
+            raise RuntimeError(f"baseline failed: {base['result']}")
+        expected = read_text(base_out)
+        nw = -(-n // b)
+        wkr = rng.randrange(nw)
+        m = min(b, n - wkr * b)
+        for kind in ("value_error", "memory_error", "exception"):
+            fault = {"worker": wkr, "point": f"in_aligner_{rng.randrange(m)}", "kind": kind}
+            planned = {"cores": c, "timeout_scale": 0.1, "fault": fault}
+            if rng.random() < 0.5:
+                planned["worker_delays"], planned["parent_delays"] = survivors_plan(rng, nw, 0.1)
+            out = os.path.join(casedir, f"out_{kind}.gaf")
+            wit = {"config": {"records": n, "batch": b, "cores": c}, "plan": planned}
+            run = RR.run_driver(casedir, f"a_{kind}", ["realign", w.gaf, w.gfa, w.fasta, "-o", out, "-c", str(c)], planned, b, timeout=150)
+            evals += 1
+            sit["executions"] += 1
+            sit["in_aligner_exception_executions"] += 1
+            judge(run, fault, wit, expected, out, viol, sit)
+            sigs.append(stable_hash(["in_aligner", n, b, c, wkr, fault["point"], kind]))
     elif case[0] == "double":
         # two workers die in one execution (different or equal points / kinds)
         n, b, c = rng.choice([(6, 2, 3), (8, 2, 2), (5, 1, 4), (9, 3, 3), (4, 1, 2)])
